@@ -137,8 +137,8 @@ Definition tverdict_eqb (a b : tverdict) : bool :=
 Definition check_tool (alg : Z) (cmds : list cmd) (target : term) (r : obsres) (tv : tool_obs) : bool :=
   match tv, r with
   | TNot, _ => true
-  | TSaid v, RSome loc _ dis sw =>
-      tverdict_eqb (tool_verdict term term_eqb Init Ext alg cmds target loc dis sw) v
+  | TSaid v, RSome loc reg dis sw =>
+      tverdict_eqb (tool_verdict term term_eqb Init Ext DataH alg cmds target loc reg dis sw) v
   | TSaid _, _ => false
   end.
 
